@@ -180,12 +180,12 @@ def _sub(ty, v):
     base = ty.x['base']
     if base == 'int':
         if type(v) is bool: return _u('bool-as-number')
-        return acc(cls(v)) if type(v) is int else rej()
+        return _try(cls, v) if type(v) is int else rej()
     if base == 'float':
         if type(v) is bool: return _u('bool-as-number')
         return _try(lambda x: cls(float(x)), v) if type(v) in (int, float) else rej()
     if base == 'str':
-        return acc(cls(v)) if type(v) is str else rej()
+        return _try(cls, v) if type(v) is str else rej()
     return uns('sub base')
 
 
